@@ -165,7 +165,24 @@ def fixed_cases(tier):
             "semiangle": 20.0, "aberrations": {}, "tilt": [0.0, 0.0],
             "variants": [{"max_batch": "auto", "scheduler": "synchronous", "workers": 1, "stress": "none"},
                          {"max_batch": 1, "scheduler": "threads", "workers": 4, "stress": "switch"}], "vseed": 1}
-    return [base]
+    # plane wave with two ensemble axes on the waves (x and y tilt series), pixelated detection, uneven batches
+    pw = {"builder": "plane", "cell": base["cell"], "gpts": [20, 24], "energy": 200e3, "slice_thickness": 1.5,
+          "projection": "infinite", "potential": {"kind": "atoms"}, "exit_planes": None,
+          "detectors": [{"type": "pixelated", "max_angle": "valid", "frac": 0.5}, {"type": "waves"}],
+          "normalize": False, "tilt": [0.0, 0.0],
+          "pw_tilt_dist": {"form": "xy", "x": [-4.0, 0.0, 5.0], "y": [-2.0, 3.0]},
+          "variants": [{"max_batch": "auto", "scheduler": "synchronous", "workers": 1, "stress": "none"},
+                       {"max_batch": 1, "scheduler": "synchronous", "workers": 1, "stress": "none"},
+                       {"max_batch": 2, "scheduler": "threads", "workers": 4, "stress": "switch"},
+                       {"max_batch": 3, "scheduler": "threads", "workers": 2, "stress": "none"}], "vseed": 2}
+    # custom scan cut into unequal blocks
+    cs = dict(base)
+    cs.update({"potential": {"kind": "atoms"}, "exit_planes": None, "detectors": [{"type": "waves"}, {"type": "flexible", "step": 0.2}],
+               "scan": {"kind": "custom", "positions": [[0.1, 0.2], [0.5, 0.5], [0.9, 0.3], [0.3, 0.8], [0.7, 0.7]]},
+               "variants": [{"max_batch": "auto", "scheduler": "synchronous", "workers": 1, "stress": "none"},
+                            {"max_batch": 2, "scheduler": "synchronous", "workers": 1, "stress": "none"},
+                            {"max_batch": 3, "scheduler": "threads", "workers": 4, "stress": "none"}], "vseed": 3})
+    return [base, pw, cs]
 
 
 def _graph_stats(obj):
